@@ -160,6 +160,9 @@ class TreeConverter(ast.NodeVisitor):
   def visit_Call(self, node):
     args = [self.visit(v) for v in node.args]
     if node.keywords:
+      if any(v.arg is None for v in node.keywords):
+        # foo(**kw) has no keyword name to put into the tree.
+        return self.generic_visit(node)
       # E.g. foo(a, b=2, c=3) becomes [Call, foo, a, [keywords, [b, 2], [c, 3]]]
       args.append(['keywords'] + [[v.arg, self.visit(v.value)] for v in node.keywords])
     return ["Call", self.visit(node.func)] + args
